@@ -124,6 +124,7 @@ pub fn check(choices: &Vec<u16>, ext: u8) -> Out {
         sample: Some(json!({"src": g.case.src, "kernel": g.case.kernel, "stack_top_first": g.case.stack, "trace_len": n, "hint": hint, "constraint_evaluations": evals})),
         evals: 1,
         extra_nontrivial: vec![],
+        soft: vec![],
     })
 }
 
